@@ -19,6 +19,20 @@ class PySHACLRunType(metaclass=ABCMeta):
     def run(self):
         raise NotImplementedError()  # pragma: no cover
 
+    @staticmethod
+    def _forget_cached_graph_contents():
+        """
+        Two module-level caches are keyed by id(graph): the stringified blank nodes and the SPARQL
+        constraint component validators. A graph object may have been edited since it was last
+        validated, and id() values are reused after garbage collection, so every run starts
+        without them.
+        """
+        from .constraints.sparql.sparql_based_constraint_components import SPARQLConstraintComponentValidator
+        from .rdfutil.stringify import stringify_blank_node
+
+        stringify_blank_node.dict_cache.clear()
+        SPARQLConstraintComponentValidator.validator_cache.clear()
+
     @classmethod
     def _run_pre_inference(
         cls,
